@@ -548,7 +548,11 @@ def classify_store(P, fn, s, cache):
         m = rules.max_index_at_store(fn, s, idx, cache)
         if m is not None and m <= ext:
             return '11 store a[i] under i < N <= extent', 'index < %d, extent %d' % (m, ext)
-        # idiom 4 companion: dst[p - src] = 0
+        # idiom 4 companion: dst[p - src] = 0 (or dst[len] = 0 with `len = p - src`)
+        if is_var(idx):
+            sd_ = fn.single_def(idx['name'])
+            if sd_ and isinstance(sd_[1], dict) and sd_[1].get('k') == 'bin' and sd_[1].get('op') == '-':
+                idx = sd_[1]
         if idx.get('k') == 'bin' and idx['op'] == '-' and is_var(idx['l']):
             sex = extent_of(fn, idx['r'])
             p = idx['l']['name']
